@@ -232,8 +232,29 @@ int main(int argc, char **argv) {
         }
         if (dim >= 2) st.distinct.insert(t.key());
     });
+    // schedule sweep: on the structured families the choices of the intra-rank TBB scheduler (which of several equally light
+    // cycles a phase keeps) decide which support vectors later phases see; sample many choice tapes for the larger
+    // communicators, where rank-count dependent shortcuts would sit (seed S43: 2 of 40 tapes expose it)
+    {
+        long fi = 0; int tapes = o.thorough ? 96 : 32;
+        for (auto &base : structured_families()) {
+            TGraph t = base;
+            if (cyclomatic(t) < 3 || t.n > 8 || t.m() > 24) continue;
+            if ((fi++ % o.nshards) != o.shard) continue;
+            McbOracle opt = mcb_bruteforce(t);
+            for (int P : {4, 5, 7}) for (int tape = 1; tape <= tapes; tape++) {
+                const char *a = "mcb_sva_signed_mpi"; std::string lj; uint64_t ls = (uint64_t) tape + 1000 * o.seed;
+                Verdict v = run_case(t, a, P, 0, ls, opt, lj);
+                st.evaluations++; st.counts["schedule-sweep"]++;
+                if (!v.ok()) { st.violations++;
+                    if (st.counts[std::string("viol_") + a + "_" + v.kind]++ < 2)
+                        emit_violation(a, v.kind, v.detail + " (P=" + std::to_string(P) + ", layout kind 0, choice tape " + std::to_string(ls) + ")",
+                            "{\"graph\":" + t.str() + ",\"algo\":\"" + a + "\",\"P\":" + std::to_string(P) + ",\"layout\":0,\"lseed\":" + std::to_string(ls) + ",\"orders\":" + lj + "}"); }
+            }
+        }
+    }
     st.print("e3_mpi[contract models]", false,
-            "five MPI entry points x communicator sizes {1,2,3,4,5,7} x per-rank edge-address layouts {all identical, reversed on ranks>=1, two seeded permutations on ranks>=1, seeded on every rank} (quick: a deterministic 1/5 sample of the P x layout product per graph and algorithm, thorough: all) on the exact-domain set; slice arithmetic for every total<=600/4096 and P<=64; non-trivial = cycle space dimension >= 2",
+            "five MPI entry points x communicator sizes {1,2,3,4,5,7} x per-rank edge-address layouts {all identical, reversed on ranks>=1, two seeded permutations on ranks>=1, seeded on every rank} (quick: a deterministic 1/5 sample of the P x layout product per graph and algorithm, thorough: all) on the exact-domain set; plus, for mcb_sva_signed_mpi on the structured families, 32 (thorough 96) intra-rank scheduler choice tapes for P in {4,5,7}; non-trivial = cycle space dimension >= 2",
             std::string("max_exh_n=") + std::to_string(o.max_exh_n) + " nrandom=" + std::to_string(o.nrandom));
     return 0;
 #endif
